@@ -351,3 +351,34 @@ class ProcessMessage:
             return None
         inner = T.field(t, "0")
         return variant_of(inner) or "?"
+
+
+# ----------------------------------------------------------------------- report_heartbeat
+class HeartbeatReport:
+    """table of Chitchat::report_heartbeat with the accessors and the two sinks kept as calls"""
+
+    def __init__(self, fx, roles):
+        self.fx, self.roles = fx, roles
+        self.fn = roles.report_heartbeat
+        self.keep = {
+            "try_set_heartbeat": roles.try_set_heartbeat["id"], "fd_report": roles.fd_report_heartbeat["id"],
+            "create": roles.node_state_mut_or_init["id"], "lookup": roles.node_state_mut["id"],
+            "memory": roles.last_heartbeat_if_deleted["id"],
+        }
+        self.eng = Engine(fx, no_inline=set(self.keep.values()), opaque_pure={self.keep["memory"]})
+        self.rows = self.eng.table(self.fn["id"], arg_terms={
+            1: ("ptr", ("S", "self"), ()), 2: ("ptr", ("S", "id"), ()), 3: ("obj", ("S", "hb"))})
+
+    def calls(self, row, role):
+        fid = self.keep[role]
+        return [e for e in row.events if e[0] == "call" and e[1] == fid]
+
+    def self_check(self, row):
+        """polarity of `id == own id` on this path (True = is self), or None"""
+        own = ("proj", ("proj", ("obj", ("S", "self")), ("f", "Chitchat", "config")), ("f", "configuration::ChitchatConfig", "chitchat_id"))
+        for c in row.cond:
+            if c[0] == "truth" and c[1][0] == "op" and c[1][1] in ("Eq", "Ne"):
+                ops = (c[1][2], c[1][3])
+                if ("obj", ("S", "id")) in ops and own in ops:
+                    return (c[1][1] == "Eq") == c[2]
+        return None
